@@ -36,7 +36,7 @@ func (r ReEncryptHandler) EncryptWithClientID(clientID, data []byte, setting con
 
 	if setting.ShouldReEncryptAcraStructToAcraBlock() {
 		// decrypt AcraStruct inside SerializedContainer to encrypt it with AcraBlock
-		if _, serialized, err := ExtractSerializedContainer(data); err == nil {
+		if n, serialized, err := ExtractSerializedContainer(data); err == nil && n == len(data) {
 			dataContext := base.NewDataProcessorContext(r.keystore)
 			accessContext := base.NewAccessContext(base.WithClientID(clientID))
 			dataContext.Context = base.SetAccessContextToContext(context.Background(), accessContext)
